@@ -25,6 +25,7 @@ FLOORS = {"call_sites_probed": 150, "expected_accept": 40, "expected_reject": 15
 
 HDR = '''from guppylang import guppy
 from guppylang.std.builtins import result, array, nat
+from guppylang.std.option import Option, nothing
 
 T = guppy.type_var("T")
 
@@ -47,7 +48,9 @@ def sink_bool(x: bool) -> None:
 '''
 PTYPES = ["int", "nat", "float", "bool", "array[int, 2]", "tuple[int, int]", "tuple[nat, bool]",
           "tuple[float, bool]", "array[nat, 2]", "tuple[tuple[int, int], bool]"]
-RET = {"int": "7", "float": "2.5", "bool": "True", "None": None}
+RET = {"int": "7", "float": "2.5", "bool": "True", "None": None, "Option[T]": "nothing()"}
+# "Option[T]": a variant whose type variable occurs only in its result: acceptable exactly where an
+# expected type is known (annotated target)
 ARGS = {
     "int": ["3", "iv"], "nat": ["nv"], "float": ["1.5", "fv"], "bool": ["True", "bv"],
     "array[int, 2]": ["array(1, 2)", "array(iv, 2)"], "array[nat, 2]": ["array(1, 2)", "array(nv, 2)"],
@@ -89,6 +92,8 @@ def gen_set(rng):
             params = [rng.choice(PTYPES) for _ in range(rng.choice([0, 1, 1, 2, 2, 3]))]
             generic = False
         ret = rng.choice(list(RET))
+        if ret == "Option[T]" and rng.random() < 0.5:
+            ret = "int"
         variants.append((params, ret, generic))
     return variants
 
@@ -204,7 +209,7 @@ def run_case(ctx, rng, idx, params, tier):
     try:
         for tys, srcs in arglists:
             pos = rng.choice(["synth", "synth", "ann:int", "ann:float", "ann:bool", "sink:int", "sink:float",
-                              "sink:bool"])
+                              "sink:bool", "ann:Option[int]", "ann:Option[int]"])
             k += 1
             counters["call_sites_probed"] += 1
             first = None
@@ -233,7 +238,8 @@ def run_case(ctx, rng, idx, params, tier):
             direct_lines += [mark] + call_line(f"v{first}", srcs, pos, k)
             over_lines += [mark] + call_line("comb", srcs, pos, k)
             ret = variants[first][1]
-            if pos == "synth" and ret != "None" or pos.startswith("ann:"):
+            if (pos == "synth" and ret not in ("None", "Option[T]")) or \
+                    (pos.startswith("ann:") and not pos.startswith("ann:Option")):
                 direct_lines.append(f'    result("ret", r{k})')
                 over_lines.append(f'    result("ret", r{k})')
     except Crash as c:
